@@ -1,6 +1,7 @@
 import EbisimProofs.Lemmas.Consts
 import EbisimProofs.Props.C13
 import EbisimModel.Model.Device
+import Mathlib.Analysis.SpecialFunctions.Log.Base
 
 /-! # C14 — Device derives a consistent grid, beam potential and trap parameters
 
@@ -58,7 +59,231 @@ theorem overrides_verbatim (I : Input ℝ) :
   have : ¬ (x ≤ 0 ∧ 0 ≤ x) := fun ⟨a, b⟩ => hx (le_antisymm a b)
   simp [Dev.get, h, this]
 
--- non-vacuity
+/-! ## the radial grid -/
+
+/-- closed form of `np.linspace(a, b, num, endpoint=False)`: `a + i (b-a)/num` -/
+theorem linspace_open (a b : ℝ) (num : ℕ) :
+    npLinspace a b num false = (List.range num).map fun (i : ℕ) => ((i : ℕ) : ℝ) * ((b - a) / num) + a := by
+  simp [npLinspace]
+
+/-- closed form of `np.geomspace(a, b, num)` over ℝ (`0 < a`, `0 < b`, `2 ≤ num`): `10^(log₁₀ a + i·step)`,
+the pinned ends are the values of the same formula -/
+theorem geomspace_closed (a b : ℝ) (num : ℕ) (ha : 0 < a) (hb : 0 < b) (hn : 2 ≤ num) :
+    npGeomspace a b num = (List.range num).map fun (i : ℕ) =>
+      (10 : ℝ) ^ (Real.log a / Real.log 10 + ((i : ℕ) : ℝ) * ((Real.log b / Real.log 10 - Real.log a / Real.log 10) / ((num - 1 : ℕ) : ℝ))) := by
+  have h10 : (0 : ℝ) < 10 := by norm_num
+  have h10' : (10 : ℝ) ≠ 1 := by norm_num
+  have hA : (10 : ℝ) ^ (Real.log a / Real.log 10) = a := Real.rpow_logb (b := 10) h10 h10' ha
+  have hB : (10 : ℝ) ^ (Real.log b / Real.log 10) = b := Real.rpow_logb (b := 10) h10 h10' hb
+  have hn1 : ((num - 1 : ℕ) : ℝ) ≠ 0 := by
+    have : 0 < num - 1 := by omega
+    exact_mod_cast this.ne'
+  apply List.ext_getElem
+  · simp [npGeomspace, npLinspace]
+  · intro i h1 h2
+    have hi : i < num := by simpa using h2
+    simp only [npGeomspace, npLinspace, List.getElem_mapIdx, List.getElem_map, List.getElem_range, Transc.log10_real, Transc.rpow_real,
+      if_true, true_and, decide_true]
+    by_cases h0 : i = 0
+    · subst h0; simp [hA]
+    · simp only [h0, if_false]
+      by_cases hl : 1 < num ∧ i = num - 1
+      · simp only [hl, and_self, if_true]
+        have : Real.log a / Real.log 10 + ((num - 1 : ℕ) : ℝ) * ((Real.log b / Real.log 10 - Real.log a / Real.log 10) / ((num - 1 : ℕ) : ℝ))
+            = Real.log b / Real.log 10 := by field_simp; ring
+        rw [this, hB]
+      · have hl' : ¬ (i = num - 1) := fun e => hl ⟨by omega, e⟩
+        simp only [hl, hl', if_false, and_false]
+        have e10 : ((10.0 : ℝ)) = 10 := by norm_num
+        rw [e10]; congr 1; ring
+
+theorem pairwise_map_range {f : ℕ → ℝ} (n : ℕ) (hf : ∀ i j, i < j → j < n → f i < f j) :
+    ((List.range n).map f).Pairwise (· < ·) := by
+  rw [List.pairwise_map]
+  have := List.pairwise_lt_range (n := n)
+  refine List.Pairwise.imp_of_mem ?_ this
+  intro a b _ hb hab
+  exact hf a b hab (by simpa using hb)
+
+/-- **the radial grid starts on the axis, is strictly increasing, ends at the drift-tube radius, has
+`6·(n_grid // 6)` nodes, and node `n_grid // 6` is exactly the beam radius** -/
+theorem grid_spec (r_e r_dt : ℝ) (n_grid : ℕ) (hre : 0 < r_e) (hrd : 2 * r_e < r_dt) (hn : 6 ≤ n_grid) :
+    let g := grid r_e r_dt n_grid
+    let k := n_grid / 6
+    g.length = 6 * k ∧ g.Pairwise (· < ·) ∧ g[0]? = some 0 ∧ g[k]? = some r_e ∧ g[6 * k - 1]? = some r_dt := by
+  intro g k
+  have hk : 1 ≤ k := by show 1 ≤ n_grid / 6; omega
+  have hkR : (0 : ℝ) < k := by exact_mod_cast hk
+  have h2 : 0 < 2 * r_e := by linarith
+  have hrd0 : 0 < r_dt := by linarith
+  have hg : g = (List.range k).map (fun (i : ℕ) => ((i : ℕ) : ℝ) * ((r_e - 0) / k) + 0)
+      ++ (List.range k).map (fun (i : ℕ) => ((i : ℕ) : ℝ) * ((2 * r_e - r_e) / k) + r_e)
+      ++ (List.range (k * 4)).map (fun (i : ℕ) => (10 : ℝ) ^ (Real.log (2 * r_e) / Real.log 10 + ((i : ℕ) : ℝ) *
+          ((Real.log r_dt / Real.log 10 - Real.log (2 * r_e) / Real.log 10) / ((k * 4 - 1 : ℕ) : ℝ)))) := by
+    show grid r_e r_dt n_grid = _
+    unfold grid
+    simp only [lit_real, Nat.cast_zero, Nat.cast_ofNat]
+    rw [linspace_open, linspace_open, geomspace_closed _ _ _ h2 hrd0 (by omega)]
+  have hl10 : 0 < Real.log 10 := Real.log_pos (by norm_num)
+  have hstep : 0 < (Real.log r_dt / Real.log 10 - Real.log (2 * r_e) / Real.log 10) / ((k * 4 - 1 : ℕ) : ℝ) := by
+    apply div_pos
+    · have := Real.log_lt_log h2 hrd
+      have := div_lt_div_of_pos_right this hl10
+      linarith
+    · have : 0 < k * 4 - 1 := by omega
+      exact_mod_cast this
+  -- the three generating functions
+  set f1 : ℕ → ℝ := fun i => (i : ℝ) * ((r_e - 0) / k) + 0 with hf1
+  set f2 : ℕ → ℝ := fun i => (i : ℝ) * ((2 * r_e - r_e) / k) + r_e with hf2
+  set f3 : ℕ → ℝ := fun i => (10 : ℝ) ^ (Real.log (2 * r_e) / Real.log 10 + (i : ℝ) *
+          ((Real.log r_dt / Real.log 10 - Real.log (2 * r_e) / Real.log 10) / ((k * 4 - 1 : ℕ) : ℝ))) with hf3
+  have hs1 : 0 < (r_e - 0) / k := by apply div_pos <;> linarith
+  have hs2 : 0 < (2 * r_e - r_e) / k := by apply div_pos <;> linarith
+  have m1 : ∀ i j : ℕ, i < j → f1 i < f1 j := by
+    intro i j hij; simp only [hf1]
+    have : (i : ℝ) < j := by exact_mod_cast hij
+    nlinarith
+  have m2 : ∀ i j : ℕ, i < j → f2 i < f2 j := by
+    intro i j hij; simp only [hf2]
+    have : (i : ℝ) < j := by exact_mod_cast hij
+    nlinarith
+  have m3 : ∀ i j : ℕ, i < j → f3 i < f3 j := by
+    intro i j hij; simp only [hf3]
+    apply Real.rpow_lt_rpow_of_exponent_lt (by norm_num)
+    have : (i : ℝ) < j := by exact_mod_cast hij
+    nlinarith
+  have b1 : ∀ i : ℕ, i < k → f1 i < r_e := by
+    intro i hi; simp only [hf1]
+    have : (i : ℝ) < k := by exact_mod_cast hi
+    have e : (k : ℝ) * ((r_e - 0) / k) = r_e := by field_simp; ring
+    nlinarith
+  have b2lo : ∀ i : ℕ, r_e ≤ f2 i := by
+    intro i; simp only [hf2]
+    have : (0 : ℝ) ≤ i := Nat.cast_nonneg i
+    nlinarith
+  have b2 : ∀ i : ℕ, i < k → f2 i < 2 * r_e := by
+    intro i hi; simp only [hf2]
+    have : (i : ℝ) < k := by exact_mod_cast hi
+    have e : (k : ℝ) * ((2 * r_e - r_e) / k) = r_e := by field_simp; ring
+    nlinarith
+  have f30 : f3 0 = 2 * r_e := by
+    simp only [hf3, Nat.cast_zero, zero_mul, add_zero]
+    exact Real.rpow_logb (b := 10) (by norm_num) (by norm_num) h2
+  have b3lo : ∀ i : ℕ, 2 * r_e ≤ f3 i := by
+    intro i
+    rcases Nat.eq_zero_or_pos i with h | h
+    · rw [h, f30]
+    · rw [← f30]; exact (m3 0 i h).le
+  have f3last : f3 (k * 4 - 1) = r_dt := by
+    simp only [hf3]
+    have hne : ((k * 4 - 1 : ℕ) : ℝ) ≠ 0 := by
+      have : 0 < k * 4 - 1 := by omega
+      exact_mod_cast this.ne'
+    have : Real.log (2 * r_e) / Real.log 10 + ((k * 4 - 1 : ℕ) : ℝ) *
+        ((Real.log r_dt / Real.log 10 - Real.log (2 * r_e) / Real.log 10) / ((k * 4 - 1 : ℕ) : ℝ)) = Real.log r_dt / Real.log 10 := by
+      field_simp; ring
+    rw [this]
+    exact Real.rpow_logb (b := 10) (by norm_num) (by norm_num) hrd0
+  refine ⟨?_, ?_, ?_, ?_, ?_⟩
+  · rw [hg]; simp; omega
+  · rw [hg, List.pairwise_append, List.pairwise_append]
+    refine ⟨⟨pairwise_map_range k fun i j hij _ => m1 i j hij, pairwise_map_range k fun i j hij _ => m2 i j hij, ?_⟩,
+      pairwise_map_range (k * 4) fun i j hij _ => m3 i j hij, ?_⟩
+    · intro a ha b hb
+      simp only [List.mem_map, List.mem_range] at ha hb
+      obtain ⟨i, hi, rfl⟩ := ha; obtain ⟨j, _, rfl⟩ := hb
+      exact lt_of_lt_of_le (b1 i hi) (b2lo j)
+    · intro a ha b hb
+      simp only [List.mem_append, List.mem_map, List.mem_range] at ha hb
+      obtain ⟨j, _, rfl⟩ := hb
+      rcases ha with ⟨i, hi, rfl⟩ | ⟨i, hi, rfl⟩
+      · exact lt_of_lt_of_le (lt_trans (b1 i hi) (by linarith)) (b3lo j)
+      · exact lt_of_lt_of_le (b2 i hi) (b3lo j)
+  · rw [hg, List.append_assoc, List.getElem?_append_left (by simp; omega)]
+    rw [List.getElem?_map, List.getElem?_range (by omega)]
+    simp [hf1]
+  · rw [hg, List.append_assoc, List.getElem?_append_right (by simp), List.getElem?_append_left (by simp; omega)]
+    simp only [List.length_map, List.length_range, Nat.sub_self]
+    rw [List.getElem?_map, List.getElem?_range (by omega)]
+    simp [hf2]
+  · rw [hg, List.getElem?_append_right (by simp; omega)]
+    have e : 6 * k - 1 - ((List.range k).map f1 ++ (List.range k).map f2).length = k * 4 - 1 := by simp; omega
+    rw [e, List.getElem?_map, List.getElem?_range (by omega)]
+    simp [f3last]
+
+/-- `argminSq` never moves once the running minimum is 0 -/
+theorem argmin_go_zero (r : ℝ) : ∀ (xs : List ℝ) (i best : ℕ), argminSq.go r xs i best 0 = best := by
+  intro xs
+  induction xs with
+  | nil => intro i best; rfl
+  | cons x xs ih =>
+    intro i best
+    have : ¬ (Num.powN (x - r) 2 < (0 : ℝ)) := by rw [powN_real]; exact not_lt.mpr (sq_nonneg _)
+    simp only [argminSq.go, this, if_false]
+    exact ih (i + 1) best
+
+theorem argmin_go_hit (r : ℝ) (post : List ℝ) : ∀ (pre : List ℝ) (i best : ℕ) (bv : ℝ), 0 < bv → (∀ x ∈ pre, x ≠ r) →
+    argminSq.go r (pre ++ r :: post) i best bv = i + pre.length := by
+  intro pre
+  induction pre with
+  | nil =>
+    intro i best bv hbv _
+    have : Num.powN (r - r) 2 < bv := by rw [powN_real]; simpa using hbv
+    simp only [List.nil_append, argminSq.go, this, if_true, List.length_nil, Nat.add_zero]
+    rw [powN_real]; simp only [sub_self, ne_eq, OfNat.ofNat_ne_zero, not_false_eq_true, zero_pow]
+    exact argmin_go_zero r post (i + 1) i
+  | cons x pre ih =>
+    intro i best bv hbv hne
+    have hx : x ≠ r := hne x (by simp)
+    have hv : 0 < Num.powN (x - r) 2 := by rw [powN_real]; exact pow_pos_of_ne (sub_ne_zero.mpr hx)
+    simp only [List.cons_append, argminSq.go]
+    split_ifs with h
+    · rw [ih (i + 1) i _ hv (fun y hy => hne y (by simp [hy]))]; simp; omega
+    · rw [ih (i + 1) best bv hbv (fun y hy => hne y (by simp [hy]))]; simp; omega
+where pow_pos_of_ne {y : ℝ} (h : y ≠ 0) : 0 < y ^ 2 := by positivity
+
+/-- the first node equal to `r` is what `int(np.argmin((g - r)**2))` returns -/
+theorem argminSq_hit (r : ℝ) (pre post : List ℝ) (hne : ∀ x ∈ pre, x ≠ r) : argminSq (pre ++ r :: post) r = pre.length := by
+  cases pre with
+  | nil =>
+    simp only [List.nil_append, argminSq, List.length_nil]
+    rw [powN_real]; simp only [sub_self, ne_eq, OfNat.ofNat_ne_zero, not_false_eq_true, zero_pow]
+    exact argmin_go_zero r post 1 0
+  | cons x pre =>
+    have hx : x ≠ r := hne x (by simp)
+    have hv : 0 < Num.powN (x - r) 2 := by rw [powN_real]; have : x - r ≠ 0 := sub_ne_zero.mpr hx; positivity
+    simp only [List.cons_append, argminSq]
+    rw [argmin_go_hit r post pre 1 0 _ hv (fun y hy => hne y (by simp [hy]))]
+    simp; omega
+
+/-- **the beam-edge index points at the node that equals the beam radius**: `rad_re_idx = n_grid // 6`
+and `rad_grid[rad_re_idx] = r_e` -/
+theorem beam_edge_index (I : Input ℝ) (hre : 0 < I.r_e) (hrd : 2 * I.r_e < I.r_dt) (hn : 6 ≤ I.n_grid) :
+    (get I).reIdx = I.n_grid / 6 ∧ (get I).grid[(get I).reIdx]? = some I.r_e := by
+  obtain ⟨hlen, hpw, _, hk, _⟩ := grid_spec I.r_e I.r_dt I.n_grid hre hrd hn
+  have hkl : I.n_grid / 6 < (grid I.r_e I.r_dt I.n_grid).length := by rw [hlen]; omega
+  have hsplit : grid I.r_e I.r_dt I.n_grid = (grid I.r_e I.r_dt I.n_grid).take (I.n_grid / 6) ++ I.r_e :: (grid I.r_e I.r_dt I.n_grid).drop (I.n_grid / 6 + 1) := by
+    conv_lhs => rw [← List.take_append_drop (I.n_grid / 6) (grid I.r_e I.r_dt I.n_grid)]
+    congr 1
+    rw [List.drop_eq_getElem_cons hkl]
+    congr 1
+    obtain ⟨_, e⟩ := List.getElem?_eq_some_iff.mp hk
+    exact e
+  have hpre : ∀ x ∈ (grid I.r_e I.r_dt I.n_grid).take (I.n_grid / 6), x ≠ I.r_e := by
+    intro x hx
+    obtain ⟨i, hi, rfl⟩ := List.mem_take_iff_getElem.mp hx
+    obtain ⟨_, e⟩ := List.getElem?_eq_some_iff.mp hk
+    have := List.pairwise_iff_getElem.mp hpw i (I.n_grid / 6) (by omega) hkl (by omega)
+    rw [e] at this
+    exact ne_of_lt this
+  have hidx : (get I).reIdx = I.n_grid / 6 := by
+    show argminSq (grid I.r_e I.r_dt I.n_grid) I.r_e = _
+    rw [hsplit, argminSq_hit I.r_e _ _ hpre]
+    simp; omega
+  exact ⟨hidx, by rw [hidx]; exact hk⟩
+
+-- non-vacuity: the hypotheses of `grid_spec` / `beam_edge_index` hold for an ordinary device (r_e = 100 µm, r_dt = 5 mm, 400 nodes)
+example : (0 : ℝ) < 1e-4 ∧ 2 * (1e-4 : ℝ) < 5e-3 ∧ 6 ≤ 400 := by norm_num
 example : (0.2 : ℝ) / (Const.PI * (1e-4 : ℝ) ^ 2) * 1e-4 > 0 := by
   have := Const.PI_pos; positivity
 end C14
